@@ -41,6 +41,7 @@ PROFILES = {
     "hostile": dict(clients=3, steps=(5, 14), menu=["get", "get", "set", "mget", "del", "del", "mset", "ping", "bad"],
                     kinds=["ok", "ok", "nil"], slots=["A", "A2", "B", "C"], burst=(1, 4)),
     "redirorder": dict(directed=True),
+    "leftover": dict(directed=True),
     "redirexpire": dict(directed=True, timeout=True),
     "quit": dict(clients=2, steps=(3, 9), menu=["get", "set", "mget", "ping", "quit"],
                  kinds=["ok"], slots=["A", "B"], burst=(1, 3)),
@@ -242,7 +243,55 @@ def gen_redirexpire(rng, sid):
     return {"id": sid, "steps": steps}
 
 
-DIRECTED = {"redirorder": gen_redirorder, "redirexpire": gen_redirexpire}
+def gen_leftover(rng, sid):
+    """Directed: connections that die with unparsed bytes in their inbound buffer (a node that sends half a reply and
+    closes; a client that sends half a request and leaves), then other connections whose data arrives in pieces (a reply
+    in two parts, a request cut in two): what the first ones left behind must not show up in the others."""
+    nodes = ["n1", "n2", "n3"]
+    home = {"A": "n1", "B": "n2", "C": "n3"}
+    steps = []
+    cn = [0]
+
+    def newc():
+        cn[0] += 1
+        return "c%d" % cn[0]
+    for _ in range(rng.randint(1, 3)):
+        if rng.random() < 0.6:
+            s1 = rng.choice("ABC")
+            c = newc()
+            steps += [{"stim": [{"op": "send", "c": c, "reqs": [{"k": rng.choice(["get", "mget"]), "slots": [s1], "args": []}]}]}, {"stim": []},
+                      {"stim": [{"op": "answerhead", "n": home[s1], "kind": "ok"}]}, {"stim": []},
+                      {"stim": [{"op": "bclose", "n": home[s1]}]}, {"stim": []}]
+        else:
+            c = newc()
+            part = rng.choice([b"*2\r\n$3\r\nGET\r\n$9\r\nleft", b"*3\r\n$3\r\nSET\r\n$4\r\nkey1\r\n$20\r\n0123456", b"*2\r\n$4\r\nMGE"])
+            steps += [{"stim": [{"op": "raw", "c": c, "hex": part.hex()}]}, {"stim": []}, {"stim": [{"op": "cclose", "c": c}]}, {"stim": []}]
+    for _ in range(rng.randint(1, 3)):
+        s2 = rng.choice("ABC")
+        c = newc()
+        k = rng.choice(["get", "get", "mget"])
+        if rng.random() < 0.6:
+            steps += [{"stim": [{"op": "send", "c": c, "reqs": [{"k": k, "slots": [s2], "args": []}]}]}, {"stim": []},
+                      {"stim": [{"op": "answerhead", "n": home[s2], "kind": "ok"}]}, {"stim": []},
+                      {"stim": [{"op": "answerrest", "n": home[s2], "kind": "ok"}]}, {"stim": []}]
+        else:
+            steps += [{"stim": [{"op": "send", "c": c, "reqs": [{"k": k, "slots": [s2], "args": []}], "cuts": [rng.randint(3, 20)]}]}, {"stim": []},
+                      {"stim": [{"op": "answer", "n": home[s2], "kind": "ok"}]}, {"stim": []}]
+    steps.append({"stim": [], "settle": True})
+    for rnd in range(2):
+        steps.append({"stim": [{"op": "answer", "n": n, "kind": "ok"} for n in nodes for _ in range(3)], "settle": True})
+    for st in steps:
+        st.setdefault("settle", False)
+        st.setdefault("noIter", False)
+        for x in st["stim"]:
+            for kk, v in (("c", ""), ("n", ""), ("reqs", []), ("hex", ""), ("kind", ""), ("cls", ""), ("to", ""), ("count", 0), ("src", ""), ("text", ""), ("cuts", [])):
+                x.setdefault(kk, v)
+            for r in x["reqs"]:
+                r.setdefault("dups", [-1] * len(r["slots"]))
+    return {"id": sid, "role": "", "steps": steps}
+
+
+DIRECTED = {"redirorder": gen_redirorder, "redirexpire": gen_redirexpire, "leftover": gen_leftover}
 
 
 def gen_many(seed, profile, n):
@@ -301,6 +350,10 @@ def gen_split(seed, n, maxkeys=12):
         for _ in range(rng.choice([1, 1, 2, 3])):
             k = rng.choice(["mget", "del", "mset", "mget"])
             sl, du = gen_keylist(rng, maxkeys, slots)
+            if i % 3 == 2:
+                # some keys reach their slot through another hash tag, one with bytes outside ASCII ("X~")
+                sl = [s + "~" if du[j] < 0 and rng.random() < 0.4 else s for j, s in enumerate(sl)]
+                sl = [sl[du[j]] if du[j] >= 0 else s for j, s in enumerate(sl)]
             reqs.append({"k": k, "slots": sl, "dups": du})
         steps = [{"stim": [{"op": "send", "c": "c1", "reqs": reqs}]}, {"stim": [], "settle": True}] + drain_steps()
         out.append(_norm({"id": "split-%s-%d" % (seed, i), "steps": steps}))
